@@ -2907,6 +2907,7 @@ def h_round(ev, args, kwargs, fr, node):
 
 def h_allclose(ev, args, kwargs, fr, node):
     a, b = args[0], args[1]
+    ev.trace.append(("allclose", a, b, node, fr.fi.qualname if fr is not None and fr.fi is not None else None))
     if isinstance(a, NdArr):
         conds = [sp.Ne(F["Allclose"](e.expr, b.expr), 0) for e in a.items]
         return CondV(sp.And(*conds))
